@@ -1,6 +1,7 @@
 import ArgoVerif.Proofs.Rank
 import ArgoVerif.Proofs.XsCtx
 import ArgoVerif.Proofs.Replace
+import ArgoVerif.Proofs.RankConc4
 /-
 Props.C17 — ranks of live execution streams are pairwise distinct; stream life cycle.
 Property theorems only; helper lemmas live in Proofs/Rank.lean and Proofs/XsCtx.lean.
@@ -8,6 +9,8 @@ Property theorems only; helper lemmas live in Proofs/Rank.lean and Proofs/XsCtx.
 Part 1 (Model.Rank): the pointer-level global stream list of src/stream.c.
 Part 2 (Model.XsCtx): the native-thread state machine of src/arch/abtd_stream.c.
 Part 3 (Model.Replace): replacing the main scheduler of the running stream (partial: see F7).
+Part 4 (Model.RankConc): the lock scope of rank allocation — concurrent callers at the granularity
+  of the spinlock / scan / update steps; the atomicity Part 1 relies on is a theorem here.
 -/
 namespace ArgoVerif.Props.C17
 open ArgoVerif ArgoVerif.Model.Rank
@@ -883,5 +886,330 @@ example :
       = some (12, .running, 12, false, true, false) := by decide
 
 end Rp
+
+/-! ## Part 4 — concurrent callers: the lock scope of rank allocation (Model.RankConc) -/
+
+namespace Conc
+open ArgoVerif.Model.RankConc
+
+abbrev CSt := Model.RankConc.St
+
+/-- states reachable by any interleaving of any number of callers (external threads, ULTs on
+different execution streams) of create / create_with_rank / set_rank / free / get_num, at the
+granularity spinlock test_and_set / scan / list update / release / return -/
+def Reach (s : CSt) : Prop := ∃ tr, machine.run Model.RankConc.init tr = some s
+
+theorem reach_inv {s : CSt} (h : Reach s) : Inv s := inv_reachable s h
+
+/-- **the list lock is a lock**: `xstream_list_lock` is set exactly while one actor is between
+its successful test_and_set and its release, and two actors are never there together. -/
+theorem conc_mutual_exclusion (s : CSt) (h : Reach s) :
+    (∀ a, s.lock = some a ↔ inCrit (s.pc a) = true) ∧
+    (∀ a b, inCrit (s.pc a) = true → inCrit (s.pc b) = true → a = b) := by
+  have hi := reach_inv h
+  refine ⟨hi.own, fun a b ha hb => ?_⟩
+  have h1 := (hi.own a).mpr ha
+  have h2 := (hi.own b).mpr hb
+  rw [h1] at h2
+  exact Option.some.inj h2
+
+/-- **C17 for concurrent callers — refinement; discharges the atomicity assumption of Part 1**:
+in every state reachable by any interleaving, the calls that have taken effect so far (`hist`, in
+the order of their linearisation steps), executed one after the other as whole atomic calls by
+`Model.Rank`, produce exactly the present shared list and exactly the results the callers got.
+For the C code: `xstream_set_new_rank`, `xstream_change_rank`, `xstream_return_rank` behave as if
+each ran alone, in the order in which they performed their update under `xstream_list_lock`. -/
+theorem conc_refines_atomic (s : CSt) (h : Reach s) :
+    runOps Model.Rank.init (s.hist.map Prod.fst) = some (s.g, s.hist.map Prod.snd) ∧
+    ArgoVerif.Props.C17.Reach s.g :=
+  ⟨(reach_inv h).hist, ⟨_, _, (reach_inv h).hist⟩⟩
+
+/-- **forward simulation, step by step**: every step of every actor either leaves the shared list
+and the history alone, or is exactly ONE atomic `Model.Rank` call — the acting actor's own call,
+taking effect once (its pc moves from "not yet" to "done"), with the result the actor will return —
+performed while that actor holds the list lock, or by a call that never writes (argument errors,
+set_rank to the rank already held, get_num). -/
+theorem conc_step_simulates (s s' : CSt) (e : Ev) (h : Reach s) (hs : Model.RankConc.step s e = some s') :
+    (s'.g = s.g ∧ s'.hist = s.hist) ∨
+    ∃ a o, preLin (s.pc a) = true ∧ postLin (s'.pc a) = true ∧
+      Model.Rank.step s.g (s.op a) = some (s'.g, o) ∧ s'.hist = s.hist ++ [(s.op a, o)] ∧ s'.res a = o ∧
+      (s.lock = some a ∨ (lockFree s.g (s.op a) = true ∧ s'.g = s.g)) := by
+  cases (inv_step s s' e (reach_inv h) hs).2 with
+  | stutter hg hh => exact Or.inl ⟨hg, hh⟩
+  | lin a o h1 h2 h3 h4 h5 h6 => exact Or.inr ⟨a, o, h1, h2, h3, h4, h5, h6⟩
+
+/-- **a caller is told what took effect**: the value returned by a call is the result recorded
+at its linearisation step. -/
+theorem conc_ret_is_linearized (s s' : CSt) (a : Actor) (o : Out) (h : Reach s)
+    (hs : Model.RankConc.step s (.ret a o) = some s') : (s.op a, o) ∈ s.hist := by
+  have hi := reach_inv h
+  simp only [Model.RankConc.step, stepRet] at hs
+  split at hs
+  · rename_i hc
+    have := hi.lin a (by rw [hc.1]; rfl)
+    rw [hc.2] at this
+    exact this
+  · simp at hs
+
+/-- **ranks of live streams are pairwise distinct under every interleaving**, at every step
+(also while somebody is inside the critical section): the list is strictly sorted by rank, no
+stream is linked twice, and `num_xstreams` (what `ABT_xstream_get_num` reads without the lock) is
+the number of live streams. -/
+theorem conc_ranks_distinct (s : CSt) (h : Reach s) :
+    (ranks s.g).Pairwise (· < ·) ∧ (ranks s.g).Nodup ∧ (live s.g).Nodup ∧
+    s.g.num = (live s.g).length ∧ (live s.g).head? = some primaryId := by
+  have hr := (conc_refines_atomic s h).2
+  have h1 := rank_sorted_distinct s.g hr
+  exact ⟨h1.1, h1.2.1, h1.2.2.1, (num_eq_length s.g hr).1, h1.2.2.2.2.2.2.1⟩
+
+/-- **a requested rank is granted iff no live stream has it at the linearisation point**, which is
+inside the caller's lock hold: whenever a `create_with_rank(r)` takes effect (any interleaving),
+it reports success iff `r ≥ 0` and no stream in the list holds `r` in the state in which it takes
+effect; on success the caller holds `xstream_list_lock`, the new stream is in the list with
+exactly rank `r`, everybody else keeps their rank; on refusal the list is unchanged. -/
+theorem conc_request_iff_free (s s' : CSt) (e : Ev) (p : Ptr) (r : Int) (o : Out) (h : Reach s)
+    (hs : Model.RankConc.step s e = some s') (hh : s'.hist = s.hist ++ [(.createWithRank p r, o)]) :
+    (o = .okRank r ↔ (0 ≤ r ∧ r ∉ ranks s.g)) ∧ (o = .okRank r ∨ o = .errRank) ∧
+    (o = .errRank → live s'.g = live s.g ∧ s'.g.rank = s.g.rank ∧ s'.g.num = s.g.num) ∧
+    (o = .okRank r → (∃ a, s.lock = some a ∧ s.op a = .createWithRank p r) ∧ s'.g.rank p = r ∧
+        (∀ q, q ∈ live s'.g ↔ q = p ∨ q ∈ live s.g) ∧ ∀ q, q ≠ p → s'.g.rank q = s.g.rank q) := by
+  rcases conc_step_simulates s s' e h hs with ⟨-, h2⟩ | ⟨a, o', -, -, hst, hh', -, hlk⟩
+  · rw [h2] at hh; simp at hh
+  · rw [hh'] at hh
+    have := List.append_cancel_left hh
+    simp only [List.cons.injEq, Prod.mk.injEq, and_true] at this
+    obtain ⟨hop, rfl⟩ := this
+    rw [hop] at hst hlk
+    have hx := rank_request_iff_free s.g s'.g p r o' (conc_refines_atomic s h).2 hst
+    refine ⟨hx.1, hx.2.1, hx.2.2.1, fun hok => ⟨?_, hx.2.2.2 hok⟩⟩
+    rcases hlk with hl | ⟨hlf, -⟩
+    · exact ⟨a, hl, hop⟩
+    · exfalso
+      have h0 := (hx.1.mp hok).1
+      simp only [lockFree, decide_eq_true_eq] at hlf
+      omega
+
+/-- **rank −1 gets the smallest unused rank at the linearisation point**: whenever a
+`create` without a rank takes effect, the caller holds the list lock and the new stream gets the
+least non-negative rank that no stream in the list holds in that state. -/
+theorem conc_auto_is_mex (s s' : CSt) (e : Ev) (p : Ptr) (o : Out) (h : Reach s)
+    (hs : Model.RankConc.step s e = some s') (hh : s'.hist = s.hist ++ [(.create p, o)]) :
+    (∃ a, s.lock = some a ∧ s.op a = .create p) ∧
+    ∃ r, o = .okRank r ∧ s'.g.rank p = r ∧ p ∈ live s'.g ∧ 0 ≤ r ∧ r ∉ ranks s.g ∧
+      ∀ k, 0 ≤ k → k < r → k ∈ ranks s.g := by
+  rcases conc_step_simulates s s' e h hs with ⟨-, h2⟩ | ⟨a, o', -, -, hst, hh', -, hlk⟩
+  · rw [h2] at hh; simp at hh
+  · rw [hh'] at hh
+    have := List.append_cancel_left hh
+    simp only [List.cons.injEq, Prod.mk.injEq, and_true] at this
+    obtain ⟨hop, rfl⟩ := this
+    rw [hop] at hst hlk
+    refine ⟨?_, rank_auto_is_mex s.g s'.g p o' (conc_refines_atomic s h).2 hst⟩
+    rcases hlk with hl | ⟨hlf, -⟩
+    · exact ⟨a, hl, hop⟩
+    · simp [lockFree] at hlf
+
+/-- **set_rank under concurrency**: whenever a `set_rank(p, r)` on a live secondary stream with
+`r ≥ 0` takes effect, it succeeds iff the stream already holds `r` or no stream in the list holds
+`r` in that state; on refusal nothing changes, on success exactly this stream's rank changes. -/
+theorem conc_change_iff_free (s s' : CSt) (e : Ev) (p : Ptr) (r : Int) (o : Out) (h : Reach s)
+    (hs : Model.RankConc.step s e = some s') (hh : s'.hist = s.hist ++ [(.setRank p r, o)])
+    (hpl : p ∈ live s.g) (hpp : p ≠ primaryId) (hr : 0 ≤ r) :
+    (o = .ok ↔ (s.g.rank p = r ∨ r ∉ ranks s.g)) ∧ (o = .ok ∨ o = .errRank) ∧
+    (o = .errRank → s'.g = s.g) ∧
+    (o = .ok → s'.g.rank p = r ∧ (∀ q, q ≠ p → s'.g.rank q = s.g.rank q) ∧
+      ∀ q, q ∈ live s'.g ↔ q ∈ live s.g) := by
+  rcases conc_step_simulates s s' e h hs with ⟨-, h2⟩ | ⟨a, o', -, -, hst, hh', -, -⟩
+  · rw [h2] at hh; simp at hh
+  · rw [hh'] at hh
+    have := List.append_cancel_left hh
+    simp only [List.cons.injEq, Prod.mk.injEq, and_true] at this
+    obtain ⟨hop, rfl⟩ := this
+    rw [hop] at hst
+    exact rank_change_iff_free s.g s'.g p r o' (conc_refines_atomic s h).2 hpl hpp hr hst
+
+/-- **the scan stays valid until the update (no time-of-check/time-of-use window)**: in every
+reachable state, an actor that has scanned the list and not yet updated it holds the lock, and
+what it found is true of the list *now*: the explicit rank it asked for is held by no live stream
+/ the rank it computed for `-1` is the least unused one.  This is the fact that fails as soon as
+check and insertion are not in the same critical section. -/
+theorem conc_scan_valid_at_update (s : CSt) (a : Actor) (h : Reach s) (hpc : s.pc a = .chkOk) :
+    s.lock = some a ∧
+    (∀ p r, s.op a = .createWithRank p r → r ∉ ranks s.g ∧ s.loc a = r ∧ p ∉ live s.g) ∧
+    (∀ p, s.op a = .create p → 0 ≤ s.loc a ∧ s.loc a ∉ ranks s.g ∧ p ∉ live s.g ∧
+        ∀ k, 0 ≤ k → k < s.loc a → k ∈ ranks s.g) ∧
+    (∀ p r, s.op a = .setRank p r → r ∉ ranks s.g ∧ p ∈ live s.g) := by
+  have hi := reach_inv h
+  have hc := hi.chk a hpc
+  have hp := hi.pre a (by rw [hpc]; rfl)
+  have hn := hi.need a (by rw [hpc]; rfl)
+  refine ⟨(hi.own a).mpr (by rw [hpc]; rfl), ?_, ?_, ?_⟩
+  · intro p r hop
+    rw [hop] at hc hp
+    have hx := chk_createw hi.wf (pre_createw hp).2 hc
+    exact ⟨hx.1, hx.2, (pre_createw hp).2⟩
+  · intro p hop
+    rw [hop] at hc hp
+    have hx := chk_create hi.wf (pre_create hp).2 hc
+    exact ⟨hx.1, hx.2.1, (pre_create hp).2, hx.2.2⟩
+  · intro p r hop
+    rw [hop] at hc hp hn
+    refine ⟨chk_setrank hi.wf hc, ?_⟩
+    simp only [lockFree, Bool.or_eq_false_iff, decide_eq_false_iff_not] at hn
+    simp only [Pre, Bool.or_eq_true, decide_eq_true_eq, List.contains_eq_mem] at hp
+    rcases hp with h0 | h0
+    · exact absurd h0 hn.1.1.1
+    · simpa using h0
+
+/-- **no assertion of the list code can fail under any interleaving**: an actor inside the
+critical section can always take its next step — the scan terminates within the list, the update
+after a successful scan passes `ABTI_ASSERT(p_xstream->rank != rank)` and the head assertions of
+`xstream_add_xstream_list` / `xstream_remove_xstream_list`, and the lock is then released. -/
+theorem conc_critical_section_progress (s : CSt) (a : Actor) (h : Reach s) (hc : inCrit (s.pc a) = true) :
+    ∃ e, (Model.RankConc.step s e).isSome = true ∧
+      (e = .check a ∨ e = .insert a ∨ e = .move a ∨ e = .remove a ∨ e = .clear a) := by
+  have hi := reach_inv h
+  have hlk := (hi.own a).mpr hc
+  cases hpc : s.pc a with
+  | idle => rw [hpc] at hc; simp [inCrit] at hc
+  | start => rw [hpc] at hc; simp [inCrit] at hc
+  | want => rw [hpc] at hc; simp [inCrit] at hc
+  | spin => rw [hpc] at hc; simp [inCrit] at hc
+  | done => rw [hpc] at hc; simp [inCrit] at hc
+  | chkFail =>
+    exact ⟨.clear a, by simp [Model.RankConc.step, stepClear, hpc, hlk], by simp⟩
+  | mutated =>
+    exact ⟨.clear a, by simp [Model.RankConc.step, stepClear, hpc, hlk], by simp⟩
+  | locked =>
+    have hp := hi.pre a (by rw [hpc]; rfl)
+    have hn := hi.need a (by rw [hpc]; rfl)
+    have hal := hi.alw a (by rw [hpc]; simp)
+    cases hop : s.op a with
+    | create p =>
+      rw [hop] at hp
+      obtain ⟨r, hm, -⟩ := mexLoop_privInit s.g p hi.wf (pre_create hp).2
+      exact ⟨.check a, by simp [Model.RankConc.step, stepCheck, hpc, hlk, hop, hm], by simp⟩
+    | createWithRank p r =>
+      rw [hop] at hp
+      have hm := findLoop_privInit s.g p r hi.wf (pre_createw hp).2
+      by_cases hin : r ∈ ranks s.g
+      · simp only [hin, decide_true] at hm
+        exact ⟨.check a, by simp [Model.RankConc.step, stepCheck, hpc, hlk, hop, hm], by simp⟩
+      · simp only [hin, decide_false] at hm
+        exact ⟨.check a, by simp [Model.RankConc.step, stepCheck, hpc, hlk, hop, hm], by simp⟩
+    | setRank p r =>
+      have hm := findLoop_wf s.g r hi.wf
+      by_cases hin : r ∈ ranks s.g
+      · simp only [hin, decide_true] at hm
+        exact ⟨.check a, by simp [Model.RankConc.step, stepCheck, hpc, hlk, hop, hm], by simp⟩
+      · simp only [hin, decide_false] at hm
+        exact ⟨.check a, by simp [Model.RankConc.step, stepCheck, hpc, hlk, hop, hm], by simp⟩
+    | free p =>
+      rw [hop] at hp hn
+      obtain ⟨g', hg⟩ := remove_enabled s.g p hi.wf hp hn
+      exact ⟨.remove a, by simp [Model.RankConc.step, stepRemove, hpc, hlk, hop, hg], by simp⟩
+    | getNum => rw [hop] at hn; simp [lockFree] at hn
+    | join p => rw [hop] at hal; simp [allowed] at hal
+    | revive p => rw [hop] at hal; simp [allowed] at hal
+    | getRank p => rw [hop] at hal; simp [allowed] at hal
+  | chkOk =>
+    have hp := hi.pre a (by rw [hpc]; rfl)
+    have hn := hi.need a (by rw [hpc]; rfl)
+    have hk := hi.chk a hpc
+    cases hop : s.op a with
+    | create p =>
+      rw [hop] at hp hk
+      obtain ⟨g', hg⟩ := insert_enabled_create s.g p _ hi.wf hp hk
+      exact ⟨.insert a, by simp [Model.RankConc.step, stepInsert, hpc, hlk, hop, hg], by simp⟩
+    | createWithRank p r =>
+      rw [hop] at hp hk hn
+      have hr : ¬ r < 0 := by simpa [lockFree] using hn
+      obtain ⟨g', hg⟩ := insert_enabled_createw s.g p r _ hi.wf hp hr hk
+      exact ⟨.insert a, by simp [Model.RankConc.step, stepInsert, hpc, hlk, hop, hg], by simp⟩
+    | setRank p r =>
+      rw [hop] at hp hk hn
+      obtain ⟨g', hg⟩ := move_enabled s.g p r _ hi.wf hp hn hk
+      exact ⟨.move a, by simp [Model.RankConc.step, stepMove, hpc, hlk, hop, hg], by simp⟩
+    | free p => rw [hop] at hk; simp [ChkFact] at hk
+    | getNum => rw [hop] at hk; simp [ChkFact] at hk
+    | join p => rw [hop] at hk; simp [ChkFact] at hk
+    | revive p => rw [hop] at hk; simp [ChkFact] at hk
+    | getRank p => rw [hop] at hk; simp [ChkFact] at hk
+
+/-! ### non-vacuity and rejected traces -/
+
+/-- what the examples look at: ranks in list order, `num_xstreams`, results in linearisation order -/
+def view (s : CSt) : List Int × Int × List Out := (ranks s.g, s.g.num, s.hist.map Prod.snd)
+
+/-- two creators race for the same free rank 3 (actor 0 from an external thread, actor 1 from a
+ULT, say): both are past their argument checks, actor 1 spins while actor 0 is inside; actor 0
+wins, actor 1's scan — done under its own lock hold, after actor 0's insertion — refuses. -/
+example :
+    (machine.run Model.RankConc.init
+      [.call 0 (.createWithRank 2 3), .call 1 (.createWithRank 3 3), .pre 0, .pre 1,
+       .tas 0 false, .tas 1 true, .spinLoad 1 true, .check 0, .spinLoad 1 true, .insert 0, .clear 0,
+       .spinLoad 1 false, .tas 1 false, .check 1, .clear 1, .ret 1 .errRank, .ret 0 (.okRank 3)]).map view
+      = some ([0, 3], 2, [.okRank 3, .errRank]) := by decide
+
+/-- the other order of the same race: the ULT wins -/
+example :
+    (machine.run Model.RankConc.init
+      [.call 0 (.createWithRank 2 3), .call 1 (.createWithRank 3 3), .pre 0, .pre 1,
+       .tas 1 false, .tas 0 true, .check 1, .insert 1, .clear 1, .spinLoad 0 false, .tas 0 false,
+       .check 0, .clear 0, .ret 1 (.okRank 3), .ret 0 .errRank]).map view
+      = some ([0, 3], 2, [.okRank 3, .errRank]) := by decide
+
+/-- a longer interleaving with four actors: different free ranks, `-1` filling the hole, a rank
+change refused and one granted, a free making a rank reusable, get_num read while another actor is
+inside the critical section, a negative rank refused without the lock -/
+example :
+    (machine.run Model.RankConc.init
+      [.call 0 (.createWithRank 2 2), .call 1 (.create 3), .call 2 (.createWithRank 4 5), .call 3 .getNum,
+       .pre 0, .pre 1, .pre 2, .tas 1 false, .tas 0 true, .check 1, .pre 3, .insert 1, .ret 3 (.okNum 1),
+       .tas 2 true, .clear 1, .ret 1 (.okRank 1), .spinLoad 2 false, .tas 2 false, .spinLoad 0 true,
+       .check 2, .insert 2, .clear 2, .spinLoad 0 false, .tas 0 false, .check 0, .call 3 .getNum, .pre 3,
+       .ret 3 (.okNum 3), .insert 0, .clear 0, .ret 0 (.okRank 2), .ret 2 (.okRank 5),
+       .call 0 (.setRank 3 5), .call 1 (.setRank 4 7), .call 2 (.createWithRank 5 (-2)), .pre 2,
+       .ret 2 .errRank, .pre 0, .pre 1, .tas 0 false, .check 0, .clear 0, .ret 0 .errRank, .tas 1 false,
+       .check 1, .move 1, .clear 1, .ret 1 .ok, .call 0 (.free 2), .pre 0, .tas 0 false, .remove 0,
+       .clear 0, .ret 0 .ok, .call 2 (.createWithRank 2 2), .pre 2, .tas 2 false, .check 2, .insert 2,
+       .clear 2, .ret 2 (.okRank 2), .call 1 (.setRank 3 1), .pre 1, .ret 1 .ok]).map view
+      = some ([0, 1, 2, 7], 4,
+          [.okNum 1, .okRank 1, .okRank 5, .okNum 3, .okRank 2, .errRank, .errRank, .ok, .ok, .okRank 2, .ok]) := by
+  decide
+
+/-- the hypotheses of the step theorems are satisfiable: a reachable state in which actor 0 has
+scanned and not yet inserted while actors 1 and 2 wait for the lock -/
+example : ∃ s, Reach s ∧ s.pc 0 = .chkOk ∧ s.pc 1 = .spin ∧ s.pc 2 = .want ∧ s.lock = some 0 :=
+  ⟨_, ⟨[.call 0 (.createWithRank 2 3), .call 1 (.createWithRank 3 3), .call 2 (.create 4), .pre 0, .pre 1,
+        .pre 2, .tas 0 false, .tas 1 true, .check 0], rfl⟩, by decide, by decide, by decide, by decide⟩
+
+/-- **rejected: check and insertion in different critical sections (check/act split)**.  Both
+actors validate rank 3 in a critical section of its own (scan says "free"), release the lock, and
+insert in a second critical section without scanning again — the two creators would both be
+granted rank 3.  The first release after a successful scan is already not a step of the model. -/
+theorem conc_rejects_check_act_split :
+    machine.run Model.RankConc.init
+      [.call 0 (.createWithRank 2 3), .call 1 (.createWithRank 3 3), .pre 0, .pre 1,
+       .tas 0 false, .check 0, .clear 0] = none ∧
+    -- … and an insertion in a critical section that did not perform the scan is not one either
+    machine.run Model.RankConc.init
+      [.call 0 (.createWithRank 2 3), .pre 0, .tas 0 false, .insert 0] = none ∧
+    -- … nor is an insertion after a scan that found the rank taken
+    machine.run Model.RankConc.init
+      [.call 0 (.createWithRank 2 0), .pre 0, .tas 0 false, .check 0, .insert 0] = none ∧
+    -- … nor a second holder of the lock, nor an update without the lock
+    machine.run Model.RankConc.init
+      [.call 0 (.create 2), .call 1 (.create 3), .pre 0, .pre 1, .tas 0 false, .tas 1 false] = none ∧
+    machine.run Model.RankConc.init
+      [.call 0 (.create 2), .pre 0, .check 0] = none := by decide
+
+/-- rejected: a caller told "granted" although its scan found the rank taken -/
+example :
+    machine.run Model.RankConc.init
+      [.call 0 (.createWithRank 2 0), .pre 0, .tas 0 false, .check 0, .clear 0, .ret 0 (.okRank 0)] = none := by
+  decide
+
+end Conc
 
 end ArgoVerif.Props.C17
